@@ -4,7 +4,7 @@ import FpgoVerif.Proofs.C15Tac
 namespace FpgoVerif.C15.Co
 
 theorem gstep_some {s pc ch s' nx} (h : gstep s pc ch = some (s', nx)) :
-    0 < s.cnt (kind pc) ∧ ∃ s1, step s pc = some (s1, nx) ∧ s' = { s1 with cnt := move s1.cnt (kind pc) nx } := by
+    0 < s.cnt (kind pc) ∧ ∃ s1, step s ch pc = some (s1, nx) ∧ s' = { s1 with cnt := move s1.cnt (kind pc) nx } := by
   unfold gstep at h
   split at h
   · simp at h
@@ -125,9 +125,9 @@ theorem fixed_const {cap f s} (h : Reach cap f s) : s.fixed = f := by
     all_goals (try (simp at hs1))
     all_goals (simp_all)
 
-theorem gstep_of_isSome {s pc} (ch : Bool) (hc : 0 < s.cnt (kind pc)) (hs : (step s pc).isSome = true) :
+theorem gstep_of_isSome {s pc} (ch : Bool) (hc : 0 < s.cnt (kind pc)) (hs : (step s ch pc).isSome = true) :
     ∃ pc' ch' s' nx', gstep s pc' ch' = some (s', nx') := by
-  cases h : step s pc with
+  cases h : step s ch pc with
   | none => simp [h] at hs
   | some p =>
     obtain ⟨s1, nx⟩ := p
